@@ -231,8 +231,13 @@ def render(found: dict, fixes: dict | None = None, table: list | None = None) ->
     return "\n".join(out)
 
 
-def translate(ctx=None) -> Path:
+def translate(ctx=None, required=()) -> Path:
     fixes, table = read_fixes()
+    missing = [f for f in required if not fixes[f]]
+    if missing:
+        # the generated tables keep describing the repaired printer: what the tree now does wrong is then reported as a
+        # violation with a failing input instead of being followed by the model
+        raise TranslatorError(f"repairs that landed are no longer detected in expressions.py: {missing}")
     text = render(read_tables(), fixes, table)
     p = VERIF / "coq/Gen/C03_tables.v"
     if not p.exists() or p.read_text() != text:
